@@ -295,6 +295,16 @@ func (w *vWorld) build(rec vRecipe) *vBuilt {
 	}
 	if rec.Format == "zero" {
 		b.vp = vc.VerifiablePresentation{}
+	} else if rec.Format == "ld" {
+		// the OTHER presentation format: a JSON-LD presentation with a proof by the subject's key (only JWTs may be listed)
+		doc := `{"@context":["https://www.w3.org/2018/credentials/v1"],"id":"` + rec.Label + `","type":["VerifiablePresentation"],` +
+			`"proof":{"type":"JsonWebSignature2020","verificationMethod":"` + rec.Subject + `#0","proofPurpose":"assertionMethod",` +
+			`"created":"2024-01-01T00:00:00Z","domain":"` + vSvc + `","jws":"e30..c2ln"}}`
+		p, err := vc.ParseVerifiablePresentation(doc)
+		if err != nil {
+			panic(err)
+		}
+		b.vp = *p
 	} else {
 		inner := vc.VerifiablePresentation{Type: []ssi.URI{ssi.MustParseURI("VerifiablePresentation")}, VerifiableCredential: creds}
 		if rec.Retraction {
@@ -867,7 +877,7 @@ func (r *vRunner) genServerOp(lastExp map[string]int64) vOp {
 			class, rec.JTI = "valid-id-used-on-other-list", id
 		}
 	case pick < 38:
-		class, rec.Format = "defect:format", "zero"
+		class, rec.Format = "defect:format", []string{"zero", "ld"}[rng.Intn(2)]
 	case pick < 41:
 		class, rec.NoID = "defect:no-id", true
 	case pick < 44:
